@@ -213,6 +213,22 @@ Proof.
   destruct (proj1 (induced_ok_spec g l mu) Hind o1 n1 o2 n2 H1 H2 Hne) as [Ha Hb]. split; [congruence|symmetry; apply Hb; exact Hl].
 Qed.
 
+(* an atom is a candidate for a link atom exactly if it has the link atom's name, one of its residue names and every
+   further attribute the link atom states (attributes of a residue in the sequence are attributes of all its atoms) *)
+Theorem atom_ok_spec la a :
+  atom_ok la a = true <->
+  ra_name a = la_name la /\ In (ra_resname a) (la_resnames la) /\ (forall kv, In kv (la_attrs la) -> In kv (ra_attrs a)).
+Proof.
+  unfold atom_ok. rewrite !andb_true_iff, String.eqb_eq, existsb_exists, forallb_forall. split.
+  - intros [[Hn (x & Hx & Ex)] Ha]. apply String.eqb_eq in Ex. subst x. split; [exact Hn|]. split; [exact Hx|].
+    intros [k v] Hkv. specialize (Ha (k, v) Hkv). unfold has_attr in Ha. apply existsb_exists in Ha.
+    destruct Ha as ([k' v'] & Hin & E). cbn [fst snd] in E. apply andb_true_iff in E. destruct E as [E1 E2].
+    apply String.eqb_eq in E1, E2. subst. exact Hin.
+  - intros (Hn & Hr & Ha). split; [split; [exact Hn|exists (ra_resname a); split; [exact Hr|apply String.eqb_refl]]|].
+    intros [k v] Hkv. unfold has_attr. apply existsb_exists. exists (k, v). split; [apply Ha; exact Hkv|].
+    cbn [fst snd]. rewrite !String.eqb_refl. reflexivity.
+Qed.
+
 (* every link atom identifies exactly one atom, else the match contributes nothing *)
 Theorem match_atoms_unique g mu las m :
   match_atoms g mu las = Some m ->
@@ -232,11 +248,11 @@ Qed.
 
 Open Scope string_scope.
 Example ex_links :
-  let at1 k := {| ra_key := k; ra_name := "EC"; ra_resname := "PEO" |} in
+  let at1 k := {| ra_key := k; ra_name := "EC"; ra_resname := "PEO"; ra_attrs := [] |} in
   let g := {| m_nodes := [{| mn_key := 0; mn_resid := 1; mn_atoms := [at1 0] |}; {| mn_key := 1; mn_resid := 2; mn_atoms := [at1 1] |};
                           {| mn_key := 2; mn_resid := 3; mn_atoms := [at1 2] |}];
               m_edges := [(0, 1); (1, 2)]; m_labels := [] |} in
-  let la k o := {| la_key := k; la_name := "EC"; la_order := o; la_resnames := ["PEO"]; la_replace := [] |} in
+  let la k o := {| la_key := k; la_name := "EC"; la_order := o; la_resnames := ["PEO"]; la_replace := []; la_attrs := [] |} in
   let l := {| l_atoms := [la "EC" (ONum 0); la "+EC" (ONum 1)];
               l_inters := [{| li_sec := "bonds"; li_atoms := ["EC"; "+EC"]; li_params := ["1"; "0.33"; "7000"]; li_version := 1; li_meta := [] |}];
               l_edges := [("EC", "+EC")]; l_res_nodes := [ONum 0; ONum 1]; l_res_edges := [(ONum 0, ONum 1)]; l_res_labels := [] |} in
